@@ -229,12 +229,12 @@ Print Assumptions C17_text_eq_is_reported_text.
 (* what the extent of a capture says about its Text: its length when the file's bytes can be read back, nothing otherwise --
    deciding `Text == c` from End()-Pos() first is sound on the former files only *)
 Theorem C17_text_length_is_extent_on_readable_files : forall file n,
-  in_file file n = true -> tn_from n <= tn_to n -> String.length (node_text file n) = extent n.
+  in_file file n = true -> String.length (node_text file n) = extent n.
 Proof. exact node_text_length_readable. Qed.
 Print Assumptions C17_text_length_is_extent_on_readable_files.
 
 Theorem C17_extent_shortcut_sound_on_readable_files : forall file n c,
-  in_file file n = true -> tn_from n <= tn_to n -> eq_by_extent file n c = String.eqb (node_text file n) c.
+  in_file file n = true -> eq_by_extent file n c = String.eqb (node_text file n) c.
 Proof. exact eq_by_extent_sound_readable. Qed.
 Print Assumptions C17_extent_shortcut_sound_on_readable_files.
 
